@@ -48,7 +48,7 @@ fn feat(s: &mut Stats, k: &str) {
 
 fn run_path(cfg: &Cfg, path: &[Value], seed: u64) -> Result<(Value, Vec<Value>), String> {
     guarded(AssertUnwindSafe(|| {
-        let mut env: Box<dyn EnvDyn> = new_env(&cfg.kind, cfg.levels, cfg.t0, &cfg.ticks, cfg.step, cfg.trading);
+        let mut env: Box<dyn EnvDyn> = new_env(&cfg.kind, cfg.levels, bourse_verif_harness::time_r(cfg.t0), &cfg.ticks, cfg.step, cfg.trading);
         let mut rng = Xoroshiro128StarStar::seed_from_u64(seed);
         let mut sched = Vec::new();
         for l in path {
@@ -160,6 +160,8 @@ fn main() {
             "--ticks" => { cfg.ticks = args[i + 1].split(',').map(|x| x.parse().unwrap()).collect(); i += 1 }
             "--step" => { cfg.step = args[i + 1].parse().unwrap(); i += 1 }
             "--t0" => { cfg.t0 = args[i + 1].parse().unwrap(); i += 1 }
+            // the environment runs at real time = specification time + offset (intra-step stamps advance by one unit, so no scaling)
+            "--time-offset" => { bourse_verif_harness::TIME_OFFSET.store(args[i + 1].parse().unwrap(), std::sync::atomic::Ordering::Relaxed); i += 1 }
             "--trading" => { cfg.trading = args[i + 1].parse().unwrap(); i += 1 }
             "--seeds" => { cfg.seeds = args[i + 1].parse().unwrap(); i += 1 }
             "--base-seed" => { cfg.base_seed = args[i + 1].parse().unwrap(); i += 1 }
